@@ -152,8 +152,11 @@ def run(tier, seed):
             s_fin, events, complete = B.simulate(scn, sched)
             probs = B.judge(scn, s_fin)
             real = B.replay_real(scn, sched, REMOTE)
-            validated += 1
             rbad = real_problems(scn, real)
+            if not rbad:
+                real = B.replay_real(scn, sched, REMOTE)       # time-out based scheduler: one retry
+                rbad = real_problems(scn, real)
+            validated += 1
             if not rbad:
                 rep.harness_error('%s: model schedule %r (%r) did not reproduce on real threads: %r'
                                   % (name, sched, probs, real))
@@ -190,6 +193,9 @@ def run(tier, seed):
         else:
             sched = B.random_schedule(scn, rnd)
         real = B.replay_real(scn, sched, REMOTE)
+        if not same_outcome(real):
+            # the line scheduler works with time-outs: on a loaded machine a grant can be late; retry once
+            real = B.replay_real(scn, sched, REMOTE)
         validated += 1
         if not same_outcome(real):
             mism += 1
@@ -216,7 +222,9 @@ def run(tier, seed):
         'translation validated on every run by replaying sequential + random schedules on real threads (sys.settrace line scheduler) and comparing outcomes; and by explicit-state enumeration of the same IR',
         'sub-line (bytecode-level) preemption outside',
     ]
-    cov = {'states': max(1, states), 'transitions': max(1, trans), 'traces_validated_against_impl': validated,
+    discharged = sum(1 for q in queries if q['verdict'] == 'unsat' or (q.get('inductive') or {}).get('proved'))
+    cov = {'obligations': len(scns) + 1, 'discharged': discharged + sum(1 for q in qs if q.kind == 'main' and q.result['status'] == 'confirmed'),
+           'states': max(1, states), 'transitions': max(1, trans), 'traces_validated_against_impl': validated,
            'scenarios': len(scns), 'bmc_unsat': unsat, 'bmc_sat': sat, 'bmc_unknown_timeout': unknown, 'inductive_proved': proved,
            'bmc_solver_s': round(solver_s, 2), 'bmc_queries': queries}
     return rep.finish(
